@@ -5,6 +5,7 @@ import (
 	"encoding/hex"
 	"encoding/json"
 	"fmt"
+	"math"
 	"math/rand"
 	"os"
 	"os/exec"
@@ -90,6 +91,11 @@ func RaceWorker(path string) {
 }
 
 func detDocs(g *gen.G) []any {
+	if g.P(0.04) {
+		// an output that fails LATE, inside the JSON encoder (a non-finite float in a later
+		// document): whatever such a failure leaves behind must not reach other evaluations
+		return []any{map[string]any{"name": "first", "port": 1}, map[string]any{"name": "second", "ratio": math.Inf(1 - 2*g.N(2))}}
+	}
 	if g.P(0.06) {
 		// the LARGE regime: many documents in one stream, or dozens of selected subtrees
 		// under one map (several per key) - sizes at which an implementation may switch
